@@ -156,6 +156,67 @@ impl DefaultSweep {
 /// Zone inference against an own instance of the finder the library is documented to use, on
 /// sequences of lookups that a cache keyed on too little would get wrong: walks across zone
 /// borders in steps of 10..500 m, repeated and alternating lookups.
+
+/// Sentinel solving: a library (or one of its dependencies) that encodes "no such event" as a
+/// special instant - the Unix epoch, a 32-bit limit, J2000 - misbehaves only where a REAL event falls
+/// exactly on that instant. For every sentinel x event x latitude row the longitude is solved for
+/// (event times move by 240 s per degree, so a bisection lands on the exact second), and the place
+/// is judged there on that date like any other site.
+fn sentinel_probe(args: &Args, rep: &mut Report) {
+    let sentinels = ["1970-01-01 00:00:00", "2038-01-19 03:14:07", "2038-01-19 03:14:08", "2001-09-09 01:46:40", "1901-12-13 20:45:52", "2000-01-01 12:00:00", "2000-01-01 00:00:00", "1969-12-31 23:59:59"];
+    let events = [TimeEvent::Dawn, TimeEvent::Sunrise, TimeEvent::Sunset, TimeEvent::Dusk];
+    let mut idx = 0u64;
+    for s in sentinels {
+        let target = NaiveDateTime::parse_from_str(s, "%Y-%m-%d %H:%M:%S").unwrap().and_utc();
+        for e in events {
+            for row in -8i32..=8 {
+                let lat = row as f64 * 7.5;
+                for dd in -1i64..=1 {
+                    idx += 1;
+                    if (idx - 1) % args.of.max(1) != args.worker || rep.full() {
+                        continue;
+                    }
+                    let date = target.date_naive() + Duration::days(dd);
+                    let f = |lon: f64| -> Option<i64> { Coordinates::new(lat, lon).and_then(|c| guarded(|| c.event_time(date, e)).ok()).map(|t| (t - target).num_seconds()) };
+                    let (mut lo, mut hi) = (-180.0f64, 180.0f64);
+                    let (Some(flo), Some(fhi)) = (f(lo), f(hi)) else { continue };
+                    // later in the west, earlier in the east
+                    if !(flo >= 0 && fhi <= 0) {
+                        rep.count("sentinel_not_reachable_on_this_date");
+                        continue;
+                    }
+                    let mut found = None;
+                    for _ in 0..80 {
+                        let mid = (lo + hi) / 2.0;
+                        match f(mid) {
+                            Some(0) => {
+                                found = Some(mid);
+                                break;
+                            }
+                            Some(v) if v > 0 => lo = mid,
+                            Some(_) => hi = mid,
+                            None => break,
+                        }
+                    }
+                    let Some(lon) = found else {
+                        rep.count("sentinel_not_hit_exactly");
+                        continue;
+                    };
+                    rep.evaluations += 1;
+                    rep.count("sentinel_sites_solved");
+                    rep.begin(&format!("sentinel site ({lat}, {lon}) on {date}: {e:?} at {s}"));
+                    for (la, lo2, d2) in [(lat, lon, date), (lat, lon, date.pred_opt().unwrap()), (lat, lon, date.succ_opt().unwrap())] {
+                        let res = check_site_day(la, lo2, d2).and_then(|_| check_site(la, lo2, d2, rep));
+                        if let Err(msg) = res {
+                            rep.violation("sun_events", format!("(site where {e:?} falls exactly on {s} UTC) {msg}"), json!({"lat": la, "lon": lo2, "date": d2.to_string()}), None);
+                        }
+                    }
+                }
+            }
+        }
+    }
+}
+
 fn border_walks(args: &Args, rep: &mut Report) {
     use std::sync::LazyLock;
     static ORACLE: LazyLock<tzf_rs::DefaultFinder> = LazyLock::new(tzf_rs::DefaultFinder::new);
@@ -445,6 +506,7 @@ pub fn run(args: &Args, rep: &mut Report) {
             lat += 5.0;
         }
     }
+    sentinel_probe(args, rep);
     border_walks(args, rep);
     if rep.full() {
         return;
